@@ -300,7 +300,10 @@ class C05Oracle(Oracle):
             return
         # --- order unknown (transfer) or ambiguous: inert wells stay exact, the rest becomes unknown
         inert = set()
+        zero_adds = {(st[1], st[2]) for st in steps if st[0] == "add" and st[3] == 0}
         for (li, w) in touched:
+            if (li, w) in zero_adds:
+                continue  # adding 0 uL re-mixes (and may re-round) the fractions without changing the volume
             pre_v = self.ledger.vol[li][w]
             same_v = vols[li][w] == vols[li][w] and frac(vols[li][w]) == pre_v
             if (li, w) in rm_only or ((li, w) in add_only and same_v):
